@@ -417,7 +417,10 @@ def write_evidence(prop, tier, seed, ctx, pr, nviol, timer):
         coqchk_axioms=(pr or {}).get("coqchk_axioms", "coqchk runs in the thorough tier only"),
         evaluations=ctx.evaluations if ctx else 0,
         distinct_nontrivial=len(ctx.nontrivial) if ctx else 0,
-        rule=rule,
+        rule=(rule + "; after the generator, for every property: a sample of all library calls repeated in related-inputs-adjacent order inside single "
+                     "processes (history independence, counted as call-sequences) and a sample of the CLI runs repeated with option-named environment "
+                     "variables, from a directory with files named like the arguments, on a pseudo-terminal and with the release build "
+                     "(ambient independence)") if rule else rule,
         samples=(ctx.samples if ctx and ctx.samples else ["(none: the check stopped before generating cases)"]),
         input_distribution=ctx.counts if ctx else {},
         exhaustive_sweeps=ctx.exhaustive if ctx else {},
